@@ -405,7 +405,10 @@ from vlib import noisy
 from checks import c01
 from checks.c15 import POOL
 n = 0
-for name, text in list(noisy.corpus_texts()) + sorted(POOL.items()):
+EXTRA = ["Feature: f\n Scenario Outline: o <n>\n  Given <n>\n  Examples:\n   | n | n |\n   | 1 | 2 |\n", "@a @a\nFeature: f\n @a\n Scenario: s\n  Given x\n  Given x\n",
+         "Feature: f\n Scenario: same\n Scenario: same\n", "Feature: f\n Background:\n Scenario: s\n", "Feature: f\n Scenario Outline: o\n  Given <missing>\n  Examples:\n   | a |\n   | 1 |\n",
+         "Feature: f\n Scenario Outline: o\n  Given x\n  Examples:\n   | unused |\n   | 1 |\n", "Feature: f\n Rule: empty\n Rule: empty\n", "Feature:\n Scenario:\n  Given \n"]
+for name, text in list(noisy.corpus_texts()) + sorted(POOL.items()) + [("extra", t) for t in EXTRA]:
     try:
         c01.pipeline(text, "en")
     except Exception:
@@ -435,7 +438,10 @@ def check_mode(case, stats):
 def unit_modes(a):
     stats = Stats()
     sweep(stats, [{"sub": "mode", "name": "optimised", "flags": ["-O"]}, {"sub": "mode", "name": "optimised-2", "flags": ["-OO"]},
-                  {"sub": "mode", "name": "c-locale", "env": {"LC_ALL": "C", "LANG": "C", "PYTHONUTF8": "0", "PYTHONCOERCECLOCALE": "0", "PYTHONIOENCODING": "utf-8"}}], check_mode, stop_after=3)
+                  # library code must not rely on warnings being only printed (test runners and CI turn them into errors)
+                  {"sub": "mode", "name": "warnings-as-errors", "flags": ["-W", "error::UserWarning", "-W", "error::DeprecationWarning:gherkin", "-W", "error::RuntimeWarning", "-W", "error::FutureWarning",
+                                                                         "-W", "error::SyntaxWarning"]},
+                  {"sub": "mode", "name": "c-locale", "env": {"LC_ALL": "C", "LANG": "C", "PYTHONUTF8": "0", "PYTHONCOERCECLOCALE": "0", "PYTHONIOENCODING": "utf-8"}}], check_mode, stop_after=4)
     return stats
 
 
